@@ -18,6 +18,9 @@ import Cascette.Model.RootFile
 import Cascette.Model.SerialTvfs
 import Cascette.Proofs.SerialRoot
 import Cascette.Model.ArchiveIndex
+import Cascette.Proofs.SerialBuilders
+import Cascette.Proofs.TvfsTables
+import Cascette.Proofs.Blte
 namespace Cascette.Props.C08
 open Cascette Cascette.Model.Manifest Cascette.Model.Serial Cascette.Proofs.Manifest
 open Cascette.Proofs.Serial Cascette.Spec.Codec
@@ -392,6 +395,117 @@ theorem aidx_stored_idempotent (ob : Nat) (e : Cascette.Model.ArchiveIndex.Entry
   · cases h : e.archive with
     | some a => simp
     | none => simp
+
+/-! ### builder-as-mutator programs and width computations (the `bp` lines of the run) -/
+
+section Builders
+open Cascette.Model.SerialBuilders Cascette.Proofs.SerialBuilders
+
+/-- **install_mutator_form** (builder-as-mutator, install V1 AND V2). Load ANY accepted install
+manifest into `InstallManifestBuilder::from_manifest`, run ANY program of editing calls (add_file,
+remove_file, add_tag, remove_tag, associate, remove_file_from_tag — arguments a Rust caller can
+pass, every call succeeding), `build`: the value is well formed under the SOURCE's version and V2
+header fields — in particular every entry of a V2 result carries a type byte (the added ones 0)
+and no entry of a V1 result does —, it holds exactly the builder's tags and entries, and its
+serialisation parses back to it (so, by `install_fixed_point`, it is a fixed point). -/
+theorem install_mutator_form (m0 : IManifest) (h0 : InstallWF m0)
+    (ops : List MOp) (hops : ∀ o ∈ ops, o.argsOk) (s : IBuilderS)
+    (hr : mrun (IBuilderS.fromManifest m0) ops = .ok s) (m : IManifest) (hb : s.build = .ok m) :
+    InstallWF m ∧ m.version = m0.version ∧ m.v2 = m0.v2 ∧ m.tags = s.b.tags ∧
+      m.entries = (if m0.version = 2 then s.b.entries.map fillType else s.b.entries) ∧
+      parseInstallU (serInstall m) = some m := by
+  have hI0 := fromManifest_inv m0 h0.1 h0.2
+  obtain ⟨hI, hsrc⟩ := mrun_inv ops _ s hops hI0 hr
+  have hsrc' : s.src = some (m0.version, m0.v2) := hsrc
+  have hres := build_wf s hI m hb
+    (by
+      intro v v2 hv
+      rw [hsrc'] at hv
+      cases hv
+      refine ⟨h0.1.version, h0.1.v2, ?_⟩
+      intro h1
+      refine mrun_notype ops _ s ?_ hr
+      intro e he
+      have hft := (h0.1.entries e he).ft
+      rw [h1] at hft
+      simpa using hft)
+    (by intro h; rw [hsrc'] at h; cases h)
+  obtain ⟨hwf, htags, hver, _⟩ := hres
+  obtain ⟨hv, hv2, hent⟩ := hver _ _ hsrc'
+  have hp := install_parse_build m hwf []
+  rw [List.append_nil] at hp
+  exact ⟨hwf, hv, hv2, htags, hent, hp⟩
+
+/-- **install_new_form**: the same for programs that start from `InstallManifestBuilder::new()`:
+a V1 manifest with the builder's tags and entries, parsed back from its serialisation. -/
+theorem install_new_form (ops : List MOp) (hops : ∀ o ∈ ops, o.argsOk) (s : IBuilderS)
+    (hr : mrun IBuilderS.new ops = .ok s) (m : IManifest) (hb : s.build = .ok m) :
+    InstallWF m ∧ m.version = 1 ∧ m.tags = s.b.tags ∧ m.entries = s.b.entries ∧
+      parseInstallU (serInstall m) = some m := by
+  have hI0 : BInv IBuilderS.new.b := by
+    refine ⟨?_, ?_⟩
+    · intro t ht; simp [IBuilderS.new, IBuilder.empty] at ht
+    · intro e he; simp [IBuilderS.new, IBuilder.empty] at he
+  obtain ⟨hI, hsrc⟩ := mrun_inv ops _ s hops hI0 hr
+  have hsrc' : s.src = none := hsrc
+  have hres := build_wf s hI m hb (by intro v v2 hv; rw [hsrc'] at hv; cases hv)
+    (fun _ => mrun_notype ops _ s (fun e he => by simp [IBuilderS.new, IBuilder.empty] at he) hr)
+  obtain ⟨hwf, htags, _, hnone⟩ := hres
+  obtain ⟨hv, hent⟩ := hnone hsrc'
+  have hp := install_parse_build m hwf []
+  rw [List.append_nil] at hp
+  exact ⟨hwf, hv, htags, hent, hp⟩
+
+/-- (kernel-checked instance, a test) the type byte IS needed: the V2 header-only manifest plus one
+`add_file` entry written WITHOUT the type byte does not parse; with `get_or_insert(0)` it does. -/
+theorem install_v2_type_byte_needed_witness :
+    parseInstallU (serInstall ⟨2, some (20, 3, 1), [], [⟨[0x61], List.replicate 16 7, 5, none⟩]⟩) = none ∧
+    parseInstallU (serInstall ⟨2, some (20, 3, 1), [], [fillType ⟨[0x61], List.replicate 16 7, 5, none⟩]⟩) =
+      some ⟨2, some (20, 3, 1), [], [⟨[0x61], List.replicate 16 7, 5, some 0⟩]⟩ := by decide
+
+open Cascette.Model.TvfsTables in
+/-- **tvfs_builder_sizing_consistent** (what the `bp tvfs` lines print for the model): for every
+flag combination, EST size and file count (n·30 < 2^32) the entry size `TvfsBuilder::build` uses
+for the CFT offsets it stores in the VFS spans is the entry size `cft_entry_size()` gives under the
+header it writes, the table holds `n` entries of that size, and the offset width is the one of
+that table size. Corollary of C03's `widen_fixed`. -/
+theorem tvfs_builder_sizing_consistent (flags estSize n : Nat) (hn : n * 30 < 4294967296) :
+    tvfsSizing flags estSize n =
+      ((layout (Flags.ofNat flags) estSize n).2, n * (layout (Flags.ofNat flags) estSize n).2,
+       Cascette.Model.TvfsPath.offsSize (n * (layout (Flags.ofNat flags) estSize n).2),
+       (n - 1) * (layout (Flags.ofNat flags) estSize n).2) ∧
+    (layout (Flags.ofNat flags) estSize n).1.entrySize = (layout (Flags.ofNat flags) estSize n).2 := by
+  have h := Cascette.Proofs.TvfsTables.widen_fixed n hn { fl := Flags.ofNat flags, cftSize := 0, estSize := estSize } rfl
+  refine ⟨?_, h.1⟩
+  unfold tvfsSizing
+  simp only [Hdr.cftOffs]
+  unfold layout
+  rw [h.2.1]
+
+open Cascette.Model.TvfsTables in
+/-- (kernel-checked instances, a test) iterating to the fixed point IS needed: with PATCH_SUPPORT the
+two-pass sizing (minimum width, then the width that table asks for) leaves offsets computed for a
+24-byte entry under a header whose table size asks for 25-byte entries at 2731 files
+(INCLUDE_CKEY|PATCH_SUPPORT) — and is right one file earlier; the widening loop agrees with itself
+at both counts. -/
+theorem tvfs_two_pass_sizing_witness :
+    twoPass ⟨true, false, true⟩ 0 2731 = (24, 65544) ∧
+    ({ fl := ⟨true, false, true⟩, cftSize := 65544, estSize := 0 } : Hdr).entrySize = 25 ∧
+    twoPass ⟨true, false, true⟩ 0 2730 = (24, 65520) ∧
+    ({ fl := ⟨true, false, true⟩, cftSize := 65520, estSize := 0 } : Hdr).entrySize = 24 ∧
+    tvfsSizing 5 0 2731 = (25, 68275, 3, 68250) ∧ tvfsSizing 5 0 2730 = (24, 65520, 2, 65496) := by decide
+
+/-- **blte_count_field_roundtrip**: the 24-bit big-endian chunk-count field of the BLTE table head
+holds every count the builder accepts (`chunks.len() <= 0xFFFFFF`) exactly; a 16-bit field would
+not (65 536 reads back as 0). C01's `blte_parse_serialize` is the whole-container statement. -/
+theorem blte_count_field_roundtrip (n : Nat) (h : n < 16777216) :
+    Cascette.Model.Blte.beNat (Cascette.Model.Blte.beBytes 3 n) = n ∧
+    Cascette.Model.Blte.beNat (Cascette.Model.Blte.beBytes 2 65536) = 0 := by
+  refine ⟨?_, by decide⟩
+  rw [Cascette.Proofs.Blte.beNat_beBytes]
+  exact Nat.mod_eq_of_lt (by simpa using h)
+
+end Builders
 
 /-- the hypotheses are satisfiable by non-trivial instances (a V2 install manifest with one tag
 and one file; a ZBSDIFF container with all three blocks non-empty) -/
